@@ -18,6 +18,7 @@ From Coba Require C19.Run.
 From Coba Require C07.Run.
 From Coba Require C12.Run.
 From Coba Require C08.Run.
+From Coba Require Exp.Run.
 Open Scope Z_scope.
 
 Definition dispatch (op : Z) (x : sx) : sx :=
@@ -39,5 +40,7 @@ Definition dispatch (op : Z) (x : sx) : sx :=
   | 7 => C07.Run.run x
   | 12 => C12.Run.run x
   | 8 => C08.Run.run x
+  | 1 => Exp.Run.run x
+  | 3 => Exp.Run.run x
   | _ => err 98
   end.
